@@ -44,6 +44,9 @@ def gen_api_case(rng: random.Random, tier: str):
         if rng.random() < 0.5:
             seq = seq[1:] + [["fix", which, i]]
         edits = (edits[:1] if rng.random() < 0.5 else []) + seq[:rng.choice([1, 2, 3])]
+    if rng.random() < 0.15:
+        # removal of a random effect somewhere in the sequence (diagonal records with stand-alone comment lines need it)
+        edits.insert(rng.randrange(len(edits) + 1), ["rmiiv", rng.randrange(1000)])
     return {"kind": "api", "thetas": thetas, "omegas": omegas, "sigmas": sigmas, "edits": edits, "seed": rng.randrange(1 << 30)}
 
 
@@ -86,6 +89,8 @@ def corpus_cases():
         dict(base, thetas=["$THETA 1 2\n"], omegas=["$OMEGA (0.1)x2 0.3\n"], edits=[["init", "omega", 0, 4.0]]),
         dict(base, thetas=["$THETA 1 2\n"], omegas=["$OMEGA 0.1 0.2 FIX 0.3\n"], edits=[["rmiiv", 1]]),
         dict(base, thetas=["$THETA 1 2\n"], omegas=["$OMEGA 0.1 0.2\n"], edits=[["join", 0, 1], ["split", 0]]),
+        dict(base, thetas=["$THETA 1 2\n"], omegas=["$OMEGA 0.1\n 0.2\n ; IIV_V\n 0.3 ; IIV_KA\n"], edits=[["init", "omega", 2, 4.0], ["rmiiv", 1]]),
+        dict(base, thetas=["$THETA 1 2\n"], omegas=["$OMEGA 0.1\n 0.2 ; IIV_V\n ; previous_value 0.4\n 0.3 ; IIV_KA\n"], edits=[["rmiiv", 1]]),
     ]
 
 
@@ -599,6 +604,12 @@ def run_api_case(case, drv):
             nitems = len(list(rec.root.subtrees("diag_item")))
             removed = {i for i, _ in args}
             kept = set(range(nitems)) - removed
+            sub = []
+            if not any(nd.find("n") for nd in rec.root.subtrees("diag_item")) and \
+                    c04.monitor_diag_remove_names("$" + str(rec.name).upper().lstrip("$"), rec, removed, res, sub):
+                call_classes += sub
+            if drv is not None:
+                c04.k_diag_names(res, drv, k, f"update_random_variable_records -> OmegaRecord.remove({args}): ")
             if any(nd.find("n") for nd in rec.root.subtrees("diag_item")):
                 call_classes.append({"cls": "omega-diag-repeat-remove", "what": f"OmegaRecord.remove({args}) on {str(rec.root)!r}: indices count etas, items are counted"})
             elif kept and (nitems - 1) in removed:
@@ -728,6 +739,8 @@ def classify_api(ctx, s1, s2, what, ed):
             return "omega-join-inside-diag-record"
         if "omega-diag-remove-last-item" in names and what.startswith("unreadable"):
             return "omega-diag-remove-last-item"
+        if "omega-diag-remove-name-readback" in names and what in ("etas", "epsilons", "omegas"):
+            return "omega-diag-remove-name-readback"
         if "omega-block-repeat-split-comment" in names and what in ("etas", "epsilons"):
             return "omega-block-repeat-split-comment"
         if "omega-diag-repeat-split" in names and what in ("etas", "epsilons", "omegas"):
